@@ -44,6 +44,13 @@ static int manifest_expansion_depth = 0;
 static const int max_manifest_expansion_depth = 1000;
 static const int max_manifest_expansions_per_invocation = 20000;
 
+// Set while skip_false_if_block() evaluates the condition of an #elif: the
+// handler then reports a false condition through elif_condition_was_true
+// instead of calling skip_false_if_block() again, so that a long chain of
+// false #elif lines does not nest one call per line.
+static bool evaluating_elif = false;
+static bool elif_condition_was_true = false;
+
 // We manage our own visibility counter, in addition to that managed by
 // cppBison.y.  We do this just so we can define manifests with the correct
 // visibility when they are declared.  (Asking the parser for the current
@@ -1819,6 +1826,10 @@ void CPPPreprocessor::
 handle_ifdef_directive(const string &args, const YYLTYPE &loc) {
   if (!is_manifest_defined(args)) {
     // The macro is undefined.  Skip stuff.
+    if (evaluating_elif) {
+      elif_condition_was_true = false;
+      return;
+    }
     skip_false_if_block(true);
   }
 }
@@ -1830,6 +1841,10 @@ void CPPPreprocessor::
 handle_ifndef_directive(const string &args, const YYLTYPE &loc) {
   if (is_manifest_defined(args)) {
     // The macro is defined.  Skip stuff.
+    if (evaluating_elif) {
+      elif_condition_was_true = false;
+      return;
+    }
     skip_false_if_block(true);
   }
 }
@@ -1865,6 +1880,10 @@ handle_if_directive(const string &args, const YYLTYPE &loc) {
   }
 
   // The expression result is false.  Skip stuff.
+  if (evaluating_elif) {
+    elif_condition_was_true = false;
+    return;
+  }
   skip_false_if_block(true);
 }
 
@@ -2048,20 +2067,41 @@ skip_false_if_block(bool consider_elifs) {
         if (level == 0 && consider_elifs) {
           // If we pass this test, we're in.
           _save_comments = true;
+          evaluating_elif = true;
+          elif_condition_was_true = true;
           handle_if_directive(args, loc);
-          return;
+          evaluating_elif = false;
+          if (elif_condition_was_true) {
+            return;
+          }
+          // The condition is false: keep skipping.
+          _save_comments = false;
         }
       } else if (command == "elifdef") {
         if (level == 0 && consider_elifs) {
           _save_comments = true;
+          evaluating_elif = true;
+          elif_condition_was_true = true;
           handle_ifdef_directive(args, loc);
-          return;
+          evaluating_elif = false;
+          if (elif_condition_was_true) {
+            return;
+          }
+          // The condition is false: keep skipping.
+          _save_comments = false;
         }
       } else if (command == "elifndef") {
         if (level == 0 && consider_elifs) {
           _save_comments = true;
+          evaluating_elif = true;
+          elif_condition_was_true = true;
           handle_ifndef_directive(args, loc);
-          return;
+          evaluating_elif = false;
+          if (elif_condition_was_true) {
+            return;
+          }
+          // The condition is false: keep skipping.
+          _save_comments = false;
         }
       } else if (command == "endif") {
         // Skip any args.
